@@ -81,19 +81,16 @@ Definition byte_is (inp : input) (pos c : N) : bool :=
 
 Inductive tokres := TAccept (n : node) | TReject (e : perr).
 
-(* One token at [pos].
-   [relocate = false] is the property as stated.  [relocate = true] describes the code: RightTrim
-   moves the error of a failing operand forward over the whitespace that follows the error's
-   position (text/trim.go:62-68) — also a whitespace error of an inner LeftTrim (finding K3, see
-   notes/C10.md); the accepted results are the same. *)
-Definition spec_token (relocate : bool) (inp : input) (t : tokspec) (pos : N) : tokres :=
+(* One token at [pos]: the property as stated.  (Until the K3 repair of text/trim.go RightTrim also moved the
+   whitespace error of an inner LeftTrim over the whitespace behind it; see notes/C10.md, notes/K3Repair.md.) *)
+Definition spec_token (inp : input) (t : tokspec) (pos : N) : tokres :=
   let c := t_rune t in
   let lrun := gap inp (t_left t) pos in
   let q := w_end lrun in                                                  (* where the rune must stand *)
   let behind (p : N) := match t_right t with Some _ => w_end (spec_run inp p) | None => p end in
   if byte_is inp q c then
     match gap_check (t_left t) lrun with
-    | Some e => TReject (if relocate then mk_err (behind (epos e)) (ecause e) else e)           (* (b) *)
+    | Some e => TReject e                                                                       (* (b) *)
     | None =>
       let rrun := gap inp (t_right t) (q + 1) in
       match gap_check (t_right t) rrun with
@@ -103,35 +100,34 @@ Definition spec_token (relocate : bool) (inp : input) (t : tokspec) (pos : N) : 
     end
   else                                                                                          (* (d) *)
     (* "was expecting <rune>": LeftTrim puts it back before the run only when the run violated the
-       mode, RightTrim moves it behind the whitespace that follows *)
+       mode, RightTrim moves it (not being a whitespace error) behind the whitespace that follows *)
     TReject (mk_err (behind (match gap_check (t_left t) lrun with Some _ => pos | None => q end))
                     (CNotFound (quote_rune c))).
 
 Inductive seqres := SAccept (ns : list node) (endp : N) | SReject (e : perr).
-Fixpoint gen_tokens (relocate : bool) (inp : input) (ts : list tokspec) (pos : N) : seqres :=
+Fixpoint spec_tokens (inp : input) (ts : list tokspec) (pos : N) : seqres :=
   match ts with
   | [] => SAccept [] pos
   | t :: ts' =>
-    match spec_token relocate inp t pos with
+    match spec_token inp t pos with
     | TReject e => SReject e
-    | TAccept n => match gen_tokens relocate inp ts' (node_rpos n) with
+    | TAccept n => match spec_tokens inp ts' (node_rpos n) with
                    | SAccept ns e => SAccept (n :: ns) e
                    | SReject e => SReject e
                    end
     end
   end.
-Definition spec_tokens : input -> list tokspec -> N -> seqres := gen_tokens false.   (* the property *)
-Definition code_tokens : input -> list tokspec -> N -> seqres := gen_tokens true.    (* the code *)
 
 (* parsley.Parse(Sentence(SeqOf(tokens))): the whole input must be consumed *)
 Inductive verdict := VTree (ns : list node) (endp : N) | VError (e : perr).
-Definition gen_parse (relocate : bool) (inp : input) (ts : list tokspec) : verdict :=
-  match gen_tokens relocate inp ts (i_offset inp) with
+Definition spec_parse (inp : input) (ts : list tokspec) : verdict :=
+  match spec_tokens inp ts (i_offset inp) with
   | SAccept ns e => if is_eof inp e then VTree ns e else VError (mk_err e (COther msg_end))
   | SReject e => VError e
   end.
-Definition spec_parse := gen_parse false.
-Definition code_parse := gen_parse true.
+(* since the K3 repair the code does what the property says; the names are kept for C10_tokens_code *)
+Definition code_tokens := spec_tokens.
+Definition code_parse := spec_parse.
 
 (* the trees the engine builds from accepted tokens *)
 Definition seq_node (ip : interp) (start : N) (ns : list node) : node :=
@@ -141,14 +137,6 @@ Definition seq_node (ip : interp) (start : N) (ns : list node) : node :=
 (* (for an empty token list the inner node is empty and stands at the end position, which is then also the start) *)
 Definition sentence_tree (ns : list node) (endp : N) : node :=
   seq_node (ISelect 0) endp [seq_node INone endp ns; NEnd endp].
-
-(* the token shape where property and code differ: a right trim around a left trim whose error
-   does not stand at the end of the run *)
-Definition k3_shape (t : tokspec) : bool :=
-  match t_left t, t_right t with
-  | Some WsNone, Some _ | Some WsSpaces, Some _ => true
-  | _, _ => false
-  end.
 
 (* ------------------------------------------------------------------ *)
 (* 3. Transparency: texts laid out as runes with whitespace strings in the gaps *)
